@@ -22,3 +22,13 @@ Proof. exists witness, ([q (-4) 1] : list AQ). repeat split; cbn; auto. Qed.
 Lemma tridiag_mul_repaired_on_witness :
   fl_res (fl_list flat_q) (tmul witness ([q (-4) 1] : list AQ)) = [0; 1; 2; -6; 1]%Z.
 Proof. vm_compute. reflexivity. Qed.
+
+(* not only on the witness: the pinned code panics on EVERY well-formed 1x1 input, over any arithmetic *)
+Lemma tridiag_mul_legacy_panics_on_every_1x1 (A : Arith) (t : tridiag A) (v : list A) :
+  wfT t -> tn t = 1 -> length v = 1 -> tmul_legacy t v = Panic Index.
+Proof.
+  intros (Hm & Hs & Hp) N L. unfold tmul_legacy, tmul_gen, tsize. rewrite N, L in *. cbn [Nat.eqb negb andb].
+  destruct (tmain t) as [|m0 [|? ?]]; try discriminate.
+  destruct v as [|v0 [|? ?]]; try discriminate.
+  destruct (tsup t); [|discriminate]. reflexivity.
+Qed.
